@@ -179,6 +179,8 @@ pub fn execute(scn: &Scenario, ctx: &mut Ctx) {
     let full = &full[..];
     let ki = kind_index(&kind);
 
+    // the answer given at the first event at which the declared extent was fully buffered
+    let mut at_extent: Option<(usize, Outcome)> = None;
     // first non-Incomplete answer and the buffer length at which it was given
     let mut settled: Option<(usize, Outcome, Option<(usize, TapVal)>)> = None;
     let mut delivered = 0usize;
@@ -241,6 +243,23 @@ pub fn execute(scn: &Scenario, ctx: &mut Ctx) {
                 ctx.violate(Prop::C06, "provenance/outside-consumed", || format!("{}: slice `{}` ({} bytes) of the returned value lies outside the {} consumed bytes of the caller's buffer", kind, label, l, consumed));
             }
         }
+        // once the declared extent is buffered the outcome class never changes again (this includes
+        // "need more data": bytes behind the structure are not the structure's business)
+        if let Some(e) = extent {
+            if delivered >= e {
+                match &at_extent {
+                    None => at_extent = Some((delivered, out)),
+                    Some((at0, o0)) => {
+                        if o0.class != out.class || o0.kind != out.kind {
+                            let (at0, o0) = (*at0, *o0);
+                            ctx.violate(Prop::C06, "locality/class-changed", || {
+                                format!("{}: declared extent {} bytes; answered {} with {} bytes buffered and {} with {} bytes buffered", kind, e, o0.show(), at0, out.show(), buf.len())
+                            });
+                        }
+                    }
+                }
+            }
+        }
         // nothing outside the structure's declared length is consumed or referenced
         if let (Some(e), Some((consumed, _, _, _, val))) = (extent, v.as_ref()) {
             if *consumed != e {
@@ -282,6 +301,36 @@ pub fn execute(scn: &Scenario, ctx: &mut Ctx) {
     }
     if events >= 2 {
         ctx.nontrivial = true;
+    }
+    // appending ARBITRARY bytes: the same structure followed by a different in-flight string
+    // (complemented bytes) must give the same outcome, consumption and value
+    // (only when the declared extent ends inside the structure's own bytes: a length field
+    // enlarged by a lie makes the following bytes part of the declared structure)
+    let own = structs::declared_extent(&kind, full).map(|e| e <= sbytes.len()).unwrap_or(false);
+    if !confused && !trail.is_empty() && own {
+        let mut alt = sbytes.to_vec();
+        alt.extend(trail.iter().map(|b| !b));
+        let describe = |ctx: &mut Ctx, b: &[u8]| {
+            ctx.call("tap", b.len(), 0, || {
+                let (out, v) = tap(&kind, b);
+                let d = v.map(|(rem, val)| {
+                    let base = b.as_ptr() as usize;
+                    let sl: Vec<(i64, usize)> = slices_of(&val).iter().map(|(p, l, _)| if *l == 0 { (-1, 0) } else { (*p as i64 - base as i64, *l) }).collect();
+                    (b.len() - rem.len(), format!("{:?}", val), sl)
+                });
+                (out, d)
+            })
+        };
+        let a = describe(ctx, full);
+        let b = describe(ctx, &alt);
+        if let (Some((oa, da)), Some((ob, db))) = (a, b) {
+            ctx.log(0xa17, oa.code(), ob.code());
+            if oa.class != ob.class || oa.kind != ob.kind {
+                ctx.violate(Prop::C06, "locality/class-changed", || format!("{}: {} when followed by one {}-byte string, {} when followed by another of the same length", kind, oa.show(), trail.len(), ob.show()));
+            } else if da != db {
+                ctx.violate(Prop::C06, "locality/value-changed", || format!("{}: the parsed value / consumption / slice positions depend on the CONTENT of the {} bytes that follow the structure", kind, trail.len()));
+            }
+        }
     }
 }
 
